@@ -17,7 +17,7 @@ BUDGET = {'quick': 360, 'thorough': 2400}
 SOURCES = ['src/dtaidistance/util.py', 'src/dtaidistance/util_numpy.py', 'src/dtaidistance/dtw.py', 'src/dtaidistance/ed.py', 'src/dtaidistance/dtw_barycenter.py',
            'src/dtaidistance/dtw_ndim.py', 'src/DTAIDistanceC/DTAIDistanceC/dd_dtw.c', 'src/DTAIDistanceC/DTAIDistanceC/dd_ed.c']
 FUNCTIONS = ['dtw.distance / warping_paths / warping_path / lb_keogh / ub_euclidean / distance_matrix', 'ed.distance', 'dtw_ndim.distance', 'dtw_barycenter.dba / dba_loop',
-             'util.SeriesContainer.wrap', 'util_numpy.verify_np_array', 'C: dtw_distance*, dtw_warping_paths*, dtw_best_path, lb_keogh, euclidean_distance*, dtw_distances_* (inputs read-only, no globals)']
+             'util.SeriesContainer.wrap', 'util_numpy.verify_np_array', 'C: dtw_distance (4 option sets incl. pruning -> euclidean_distance), dtw_warping_paths + dtw_best_path, dtw_warping_path (inputs read-only, no mutable globals; the other C routines run with read-only inputs in C02, C04-C09, C11, C12, C18)']
 BOUNDS = {'quick': {'series length': '1..3', 'containers': 'list, tuple, object ndarray (C order, strided view, reversed-stride view), 2-D: C / F order / transposed view, SeriesContainer',
                     'histories': 'repeated call, interleaved calls sharing series and settings dict'},
           'thorough': {'series length': '1..4'}}
